@@ -12,9 +12,15 @@ structure Pre (B : Nat) (fs : FS) (e : Dir) (us : List Kid) : Prop where
   ups : ∀ u ∈ us, e <+: u.dir ∧ u.dir.length ≤ B
   len : e.length ≤ B
 
+/-- `x` was reachable, in the store `fs`, from some directory on the path from `e` down to one of the updates -/
+def OnPath (fs : FS) (e : Dir) (us : List Kid) (x : Dir) : Prop :=
+  ∃ u ∈ us, ∃ a, e <+: a ∧ a <+: u.dir ∧ Reaches fs a x
+
 structure Post (H : SList → Nat) (B : Nat) (fs : FS) (e : Dir) (us : List Kid) (fs' : FS) (k : Kid) : Prop where
   dir : k.dir = e
   reachOld : ∀ x, Reaches fs e x → Reaches fs' e x
+  reachNew : ∀ x, Reaches fs' e x → Reaches fs e x ∨ OnPath fs e us x
+  existNew : ∀ x, fs' x ≠ none → fs x ≠ none ∨ Reaches fs' e x
   reachUps : ∀ u ∈ us, Reaches fs' e u.dir
   kidsOrder : ∃ l', fs' e = some l' ∧ l'.kids.map (·.dir) =
       (groupBy e.length (us.filter (fun u => u.dir.length > e.length) ++ ((fs e).getD {}).kids)).map (fun g => e ++ [g.1])
@@ -62,6 +68,8 @@ structure FoldInv (H : SList → Nat) (B : Nat) (fs : FS) (d : Dir) (doneG : Lis
   dirs : acc.2.map (·.dir) = (doneG.map (·.1)).map (fun g => d ++ [g])
   reach : ∀ p ∈ doneG, (∀ x, Reaches fs (d ++ [p.1]) x → Reaches acc.1 (d ++ [p.1]) x) ∧
       (∀ u ∈ p.2, Reaches acc.1 (d ++ [p.1]) u.dir)
+  reachNew : ∀ p ∈ doneG, ∀ x, Reaches acc.1 (d ++ [p.1]) x → Reaches fs (d ++ [p.1]) x ∨ OnPath fs (d ++ [p.1]) p.2 x
+  existNew : ∀ x, acc.1 x ≠ none → fs x ≠ none ∨ ∃ p ∈ doneG, Reaches acc.1 (d ++ [p.1]) x
   exact : ∀ k ∈ acc.2, Exact H acc.1 k
   files : ∀ x, filesAt acc.1 x = filesAt fs x
 
@@ -102,7 +110,7 @@ theorem foldMerge_spec (H : SList → Nat) (B : Nat) (M : FS → Dir → List Ki
       exact prefix_snoc_ne hne hgy hy
     have hnew : FoldInv H B fs d (doneG ++ [(key, us)])
         ((M acc.1 (d ++ [key]) us).1, acc.2 ++ [(M acc.1 (d ++ [key]) us).2]) := by
-      refine ⟨hpost.wf, hpost.depth, ?_, ?_, ?_, ?_, ?_⟩
+      refine ⟨hpost.wf, hpost.depth, ?_, ?_, ?_, ?_, ?_, ?_, ?_⟩
       · intro x hx
         have h1 : ¬ (d ++ [key]) <+: x := hx key (by simp)
         rw [hpost.frame x h1]
@@ -119,6 +127,29 @@ theorem foldMerge_spec (H : SList → Nat) (B : Nat) (M : FS → Dir → List Ki
           exact ⟨fun x hx => (h1 x hx).frame hinv.wf hfr, fun u hu => (h2 u hu).frame hinv.wf hfr⟩
         · subst hp
           exact ⟨fun x hx => hpost.reachOld x (hx.frame hwf0 hsame), hpost.reachUps⟩
+      · intro p hp x hx
+        simp only [List.mem_append, List.mem_singleton] at hp
+        rcases hp with hp | hp
+        · -- an earlier group: the store below it has not been touched by this merge
+          have hne : p.1 ≠ key := fun h => hkey_notin (h ▸ List.mem_map.mpr ⟨p, hp, rfl⟩)
+          have hfr : ∀ y, (d ++ [p.1]) <+: y → acc.1 y = (M acc.1 (d ++ [key]) us).1 y :=
+            fun y hy => (hpost.frame y (prefix_snoc_ne hne hy)).symm
+          exact hinv.reachNew p hp x (hx.frame hpost.wf hfr)
+        · subst hp
+          have hback : ∀ y, (d ++ [key]) <+: y → fs y = acc.1 y := fun y hy => (hsame y hy).symm
+          rcases hpost.reachNew x hx with h | ⟨u, hu, a, ha1, ha2, ha3⟩
+          · exact Or.inl (h.frame hinv.wf hback)
+          · exact Or.inr ⟨u, hu, a, ha1, ha2, ha3.frame hinv.wf (fun y hy => hback y (prefix_trans' ha1 hy))⟩
+      · -- a list that exists now existed at the start or is reachable from one of the merged children
+        intro x hx
+        rcases hpost.existNew x hx with h | h
+        · rcases hinv.existNew x h with h0 | ⟨p, hp, hpx⟩
+          · exact Or.inl h0
+          · have hne : p.1 ≠ key := fun hh => hkey_notin (hh ▸ List.mem_map.mpr ⟨p, hp, rfl⟩)
+            have hfr : ∀ y, (d ++ [p.1]) <+: y → (M acc.1 (d ++ [key]) us).1 y = acc.1 y :=
+              fun y hy => hpost.frame y (prefix_snoc_ne hne hy)
+            exact Or.inr ⟨p, by simp [hp], hpx.frame hinv.wf hfr⟩
+        · exact Or.inr ⟨(key, us), by simp, h⟩
       · intro k hk
         simp only [List.mem_append, List.mem_singleton] at hk
         rcases hk with hk | hk
@@ -217,7 +248,7 @@ theorem merge_spec (H : SList → Nat) (B : Nat) : ∀ (fuel : Nat) (fs : FS) (d
       fun fs' e us' hl hpre => ih fs' e us' (by omega) hpre
     have hfold := foldMerge_spec H B (merge H fuel) fs d hp.wf hM (groupBy d.length deeper) [] (fs, [])
       (by simpa using hgi.nodup) hgroups hlenB
-      ⟨hp.wf, hp.depth, fun x _ => rfl, by simp, by simp, by simp, fun x => rfl⟩
+      ⟨hp.wf, hp.depth, fun x _ => rfl, by simp, by simp, by simp, fun x hx => Or.inl hx, by simp, fun x => rfl⟩
     simp only [List.nil_append] at hfold
     rw [hr] at hfold
     -- the final write at d
@@ -276,7 +307,30 @@ theorem merge_spec (H : SList → Nat) (B : Nat) : ∀ (fuel : Nat) (fs : FS) (d
     simp only [writeConfig]
     have hFd : (r.1.set d l') d = some l' := set_same _ _ _
     have hFo : ∀ y, d ≠ y → (r.1.set d l') y = r.1 y := fun y h => set_other _ _ _ _ (fun h' => h h'.symm)
-    refine ⟨rfl, ?_, ?_, ?_, ?_, ?_, ?_, ?_, ?_⟩
+    have hwfF : WF (r.1.set d l') := by
+      intro x l hx
+      by_cases hxd : x = d
+      · subst hxd; rw [set_same] at hx; cases hx; exact hwfl'
+      · rw [set_other _ _ _ _ hxd] at hx; exact hfold.wf x l hx
+    -- a member of a group is an update lying deeper, or a child the list at d already recorded
+    have hmember : ∀ m ∈ deeper, (m ∈ us) ∨ (m ∈ root.kids ∧ fs d = some root) := by
+      intro m hm
+      rw [← hdeeper] at hm
+      simp only [List.mem_append, List.mem_filter] at hm
+      rcases hm with ⟨h1, _⟩ | h1
+      · exact Or.inl h1
+      · right; refine ⟨h1, ?_⟩
+        cases hfd : fs d with
+        | none => rw [hfd] at hroot; simp at hroot; subst hroot; simp at h1
+        | some l => rw [hfd] at hroot; simp at hroot; subst hroot; rfl
+    have hkid_dir : ∀ m ∈ root.kids, ∀ g, (d ++ [g]) <+: m.dir → m.dir = d ++ [g] := by
+      intro m hm g hpre
+      obtain ⟨y, hy⟩ := hrootwf.shape m hm
+      rw [hy] at hpre ⊢
+      by_cases hgy : g = y
+      · rw [hgy]
+      · exact absurd (List.prefix_refl _) (prefix_snoc_ne hgy hpre)
+    refine ⟨rfl, ?_, ?_, ?_, ?_, ?_, ?_, ?_, ?_, ?_, ?_⟩
     · -- everything that was reachable stays reachable
       intro x hx
       cases hx with
@@ -287,6 +341,52 @@ theorem merge_spec (H : SList → Nat) (B : Nat) : ∀ (fuel : Nat) (fs : FS) (d
         have hcd : c ∈ deeper := by rw [← hdeeper]; simp [hc]
         obtain ⟨y, hy⟩ := hrootwf.shape c hc
         exact (hreach_deeper _ l' hFd rfl hFo c hcd).2 x hcx (by rw [hy]; simp)
+    · -- nothing else becomes reachable
+      intro x hx
+      cases hx with
+      | refl => exact Or.inl (Reaches.refl _)
+      | @step _ _ c l hget hc hcx =>
+        rw [hFd] at hget; cases hget
+        obtain ⟨g, hg⟩ := hkd c hc
+        have hgk : g ∈ (groupBy d.length deeper).map (·.1) := by
+          have hcd : c.dir ∈ r.2.map (·.dir) := List.mem_map.mpr ⟨c, hc, rfl⟩
+          rw [hfold.dirs] at hcd
+          obtain ⟨g', hg', hgd⟩ := List.mem_map.mp hcd
+          have hgg : g' = g := by rw [hg] at hgd; simpa using List.append_cancel_left hgd
+          exact hgg ▸ hg'
+        obtain ⟨p, hp', hpg⟩ := List.mem_map.mp hgk
+        have hfrB : ∀ y, (d ++ [g]) <+: y → r.1 y = (r.1.set d l') y :=
+          fun y hy => (hFo y (fun hdy => hd_not_below g (hdy ▸ hy))).symm
+        have hcx' : Reaches r.1 (d ++ [p.1]) x := by rw [hpg]; rw [hg] at hcx; exact hcx.frame hwfF hfrB
+        obtain ⟨e, he⟩ := List.exists_mem_of_ne_nil _ (hgi.nonempty p.1 p.2 hp')
+        have hed := hgi.sound p.1 p.2 hp' e he
+        have hegp := hgroups p.1 p.2 hp' e he
+        rcases hfold.reachNew p hp' x hcx' with h | ⟨u, hu, a, ha1, ha2, ha3⟩
+        · rcases hmember e hed.1 with heu | ⟨hek, hfd⟩
+          · exact Or.inr ⟨e, heu, d ++ [p.1], List.prefix_append _ _, hegp.1, h⟩
+          · have hdir := hkid_dir e hek p.1 hegp.1
+            exact Or.inl (Reaches.step hfd hek (by rw [hdir]; exact h))
+        · have hud := hgi.sound p.1 p.2 hp' u hu
+          have hugp := hgroups p.1 p.2 hp' u hu
+          rcases hmember u hud.1 with huu | ⟨huk, hfd⟩
+          · exact Or.inr ⟨u, huu, a, prefix_trans' (List.prefix_append _ _) ha1, ha2, ha3⟩
+          · have hdir := hkid_dir u huk p.1 hugp.1
+            have haeq : a = u.dir := by
+              rw [hdir] at ha2 ⊢
+              exact List.IsPrefix.eq_of_length ha2 (Nat.le_antisymm ha2.length_le ha1.length_le)
+            exact Or.inl (Reaches.step hfd huk (by rw [← haeq]; exact ha3))
+    · -- every list that exists afterwards existed before or is reachable from d
+      intro x hx
+      by_cases hxd : x = d
+      · subst hxd; exact Or.inr (Reaches.refl _)
+      · rw [set_other _ _ _ _ hxd] at hx
+        rcases hfold.existNew x hx with h | ⟨p, hp', hpx⟩
+        · exact Or.inl h
+        · right
+          obtain ⟨k, hk, hkd'⟩ := hkid_of p hp'
+          have hfr : ∀ y, (d ++ [p.1]) <+: y → (r.1.set d l') y = r.1 y :=
+            fun y hy => hFo y (fun hdy => hd_not_below p.1 (hdy ▸ hy))
+          exact Reaches.step hFd (show k ∈ l'.kids from hk) (by rw [hkd']; exact hpx.frame hfold.wf hfr)
     · -- every update is reachable
       intro u hu
       obtain ⟨hpre, hle⟩ := hp.ups u hu
